@@ -291,4 +291,385 @@ example : routeAdvertiseC.wf (List.replicate 16 1, [110], 3,
 example : sleepC.wf (List.replicate 16 1, 7, 1000, List.replicate 64 0, [List.replicate 16 2]) = true := by
   decide
 
+/-! ### QueuedState (fixed decoder: offset 97 + 16·|SeenBy|, capped pre-allocation) -/
+
+/-- **QueuedState round trip**, including BOTH optional commands, signed or not: the defect of
+    the pinned decoder (offset 33 + 16n) lost the wake command whenever a sleep command was
+    present. -/
+theorem QueuedState_roundtrip (q : QueuedState) (h : queuedStateWF q = true) :
+    decodeQueuedState (encodeQueuedState q) = some q := by
+  obtain ⟨routes, withdraws, nodeInfos, sleep, wake⟩ := q
+  simp only [queuedStateWF, Bool.and_eq_true, decide_eq_true_eq] at h
+  obtain ⟨⟨⟨⟨⟨⟨⟨hrl, hr⟩, hwl⟩, hw⟩, hnl⟩, hn⟩, hs⟩, hk⟩ := h
+  -- every queued item decodes back from its own blob
+  have hR : ∀ a ∈ routes, decodeRouteAdvertise (routeAdvertiseC.enc a) = some a ∧
+      (routeAdvertiseC.enc a).length < 65536 := by
+    intro a ha
+    have := List.all_eq_true.mp hr a ha
+    simp only [Bool.and_eq_true, decide_eq_true_eq] at this
+    exact ⟨RouteAdvertise_roundtrip a this.1, this.2⟩
+  have hW : ∀ a ∈ withdraws, decodeRouteWithdraw (routeWithdrawC.enc a) = some a ∧
+      (routeWithdrawC.enc a).length < 65536 := by
+    intro a ha
+    have := List.all_eq_true.mp hw a ha
+    simp only [Bool.and_eq_true, decide_eq_true_eq] at this
+    exact ⟨RouteWithdraw_roundtrip a this.1, this.2⟩
+  have hN : ∀ a ∈ nodeInfos, decodeNodeInfoAdvertise (nodeInfoAdvertiseC.enc a) = some a ∧
+      (nodeInfoAdvertiseC.enc a).length < 65536 := by
+    intro a ha
+    have := List.all_eq_true.mp hn a ha
+    simp only [Bool.and_eq_true, decide_eq_true_eq] at this
+    exact ⟨NodeInfoAdvertise_roundtrip a this.1, this.2⟩
+  -- the tail: present flags and commands
+  have htail : ∀ (r5 : Bytes), r5 = encOptCmd sleep ++ encOptCmd wake →
+      (match r5 with
+       | [] => (none : Option QueuedState)
+       | sf :: r6 =>
+         let (sl, r7) : Option Cmd × Bytes :=
+           if sf != 0 then
+             match decodeCmd r6 with
+             | some c => (some c, r6.drop (97 + 16 * c.2.2.2.2.length))
+             | none => (none, r6)
+           else (none, r6)
+         match r7 with
+         | [] => none
+         | wf :: r8 =>
+           let wk := if wf != 0 then decodeCmd r8 else none
+           some { routes := routes, withdraws := withdraws, nodeInfos := nodeInfos, sleep := sl, wake := wk })
+        = some { routes := routes, withdraws := withdraws, nodeInfos := nodeInfos, sleep := sleep, wake := wake } := by
+    intro r5 hr5
+    subst hr5
+    have hwake : ∀ (w : Option Cmd), (match w with | some c => sleepC.wf c | none => true) = true →
+        (match encOptCmd w with
+         | [] => (none : Option QueuedState)
+         | wf :: r8 =>
+           let wk := if wf != 0 then decodeCmd r8 else none
+           some { routes := routes, withdraws := withdraws, nodeInfos := nodeInfos, sleep := sleep, wake := wk })
+          = some { routes := routes, withdraws := withdraws, nodeInfos := nodeInfos, sleep := sleep, wake := w } := by
+      intro w hwf
+      cases w with
+      | none => simp [encOptCmd]
+      | some c =>
+        have : decodeCmd (sleepC.enc c) = some c := SleepWake_roundtrip c hwf
+        simp [encOptCmd, this]
+    cases sleep with
+    | none =>
+      have hWk := hwake wake hk
+      generalize encOptCmd wake = W at hWk ⊢
+      simp only [encOptCmd, List.cons_append, List.nil_append]
+      simpa using hWk
+    | some c =>
+      have hc : sleepC.wf c = true := hs
+      have hdec : decodeCmd (sleepC.enc c ++ encOptCmd wake) = some c :=
+        decodeTop_append sleep_sound cmdMinLen c _ hc (cmd_minLen c hc)
+      have hdrop : (sleepC.enc c ++ encOptCmd wake).drop (97 + 16 * c.2.2.2.2.length) = encOptCmd wake :=
+        drop_append_len _ _ _ (cmd_enc_length c hc)
+      have hWk := hwake wake hk
+      generalize encOptCmd wake = W at hWk hdec hdrop ⊢
+      simp only [encOptCmd, List.cons_append]
+      have h1 : ((1 : UInt8) != 0) = true := by decide
+      simp only [h1, if_true, hdec, hdrop]
+      simpa using hWk
+  -- assemble
+  obtain ⟨r0, hu1, hb1⟩ := encBlobs_dec decodeRouteAdvertise routeAdvertiseC.enc routes
+    (encBlobs routeWithdrawC.enc withdraws ++ (encBlobs nodeInfoAdvertiseC.enc nodeInfos ++
+      (encOptCmd sleep ++ encOptCmd wake))) hrl hR
+  obtain ⟨r2, hu2, hb2⟩ := encBlobs_dec decodeRouteWithdraw routeWithdrawC.enc withdraws
+    (encBlobs nodeInfoAdvertiseC.enc nodeInfos ++ (encOptCmd sleep ++ encOptCmd wake)) hwl hW
+  obtain ⟨r4, hu3, hb3⟩ := encBlobs_dec decodeNodeInfoAdvertise nodeInfoAdvertiseC.enc nodeInfos
+    (encOptCmd sleep ++ encOptCmd wake) hnl hN
+  have hlen : ¬ (encodeQueuedState
+      { routes := routes, withdraws := withdraws, nodeInfos := nodeInfos, sleep := sleep, wake := wake }).length < 8 := by
+    have e1 : ∀ (o : Option Cmd), 1 ≤ (encOptCmd o).length := by
+      intro o; cases o <;> simp [encOptCmd]
+    have := e1 sleep
+    have := e1 wake
+    simp [encodeQueuedState, encBlobs]
+    omega
+  unfold decodeQueuedState decodeQueuedStateWith
+  rw [if_neg hlen]
+  simp only [encodeQueuedState, List.append_assoc]
+  rw [hu1]
+  dsimp only
+  rw [hb1]
+  dsimp only
+  rw [hu2]
+  dsimp only
+  rw [hb2]
+  dsimp only
+  rw [hu3]
+  dsimp only
+  rw [hb3]
+  dsimp only
+  exact htail _ rfl
+
+/-- The pinned decoder (skip 33 + 16·|SeenBy| past the sleep command) on the encoding of a state
+    with an unsigned sleep command and a wake command: the wake command is lost.  With 97 it is
+    kept (`QueuedState_roundtrip`). -/
+def offsetWitness : QueuedState :=
+  let c : Cmd := (List.replicate 16 1, 7, 1000, List.replicate 64 0, [])
+  { routes := [], withdraws := [], nodeInfos := [], sleep := some c, wake := some c }
+
+set_option maxRecDepth 20000 in
+theorem QueuedState_offset33_refuted :
+    queuedStateWF offsetWitness = true ∧
+    ((decodeQueuedStateWith 33 (encodeQueuedState offsetWitness)).map fun q => q.wake.isSome) = some false ∧
+    ((decodeQueuedStateWith 97 (encodeQueuedState offsetWitness)).map fun q => q.wake.isSome) = some true := by
+  decide
+
+/-- **Bounded allocation of the count-driven reservations**: for ANY input the three
+    `make(_, 0, n)` calls of `DecodeQueuedState` together reserve at most 3·(len/2) elements
+    (the pinned code reserved up to 65535 elements from an 8-byte input). -/
+theorem QueuedState_prealloc_le (bs : Bytes) : queuedPrealloc bs ≤ 3 * (bs.length / 2) := by
+  have three : ∀ (A B C L : Nat), A ≤ L → B ≤ L → C ≤ L → A + (B + C) ≤ 3 * L := by
+    intro A B C L a b c; omega
+  unfold queuedPrealloc
+  dsimp only
+  split
+  · omega
+  · next rc r0 h0 =>
+    have s0 := be_shrinks 2 _ _ _ h0
+    have c1 : min rc (r0.length / 2) ≤ bs.length / 2 :=
+      Nat.le_trans (Nat.min_le_right _ _) (Nat.div_le_div_right s0)
+    split
+    · exact three _ 0 0 _ c1 (Nat.zero_le _) (Nat.zero_le _)
+    · next _ r1 h1 =>
+      have s1 := blobList_shrinks _ _ _ _ _ h1
+      split
+      · exact three _ 0 0 _ c1 (Nat.zero_le _) (Nat.zero_le _)
+      · next wc r2 h2 =>
+        have s2 := be_shrinks 2 _ _ _ h2
+        have c2 : min wc (r2.length / 2) ≤ bs.length / 2 :=
+          Nat.le_trans (Nat.min_le_right _ _) (Nat.div_le_div_right (by omega))
+        split
+        · exact three _ _ 0 _ c1 c2 (Nat.zero_le _)
+        · next _ r3 h3 =>
+          have s3 := blobList_shrinks _ _ _ _ _ h3
+          split
+          · exact three _ _ 0 _ c1 c2 (Nat.zero_le _)
+          · next nc r4 h4 =>
+            have s4 := be_shrinks 2 _ _ _ h4
+            have c3 : min nc (r4.length / 2) ≤ bs.length / 2 :=
+              Nat.le_trans (Nat.min_le_right _ _) (Nat.div_le_div_right (by omega))
+            exact three _ _ _ _ c1 c2 c3
+
+example : queuedPrealloc [0xff, 0xff, 0, 0, 0, 0, 0, 0] = 3 := by decide
+
+/-! ### NodeInfo (strict head, peer list and key; optional tail) -/
+
+/-- **NodeInfo round trip** for every NodeInfo within the wire limits (strings ≤ 255 bytes,
+    ≤ 255 addresses, ≤ 50 peers, ≤ 20 listeners, ≤ 10 shells, 32-byte key). -/
+theorem NodeInfo_roundtrip (n : NodeInfo) (h : nodeInfoWF n = true) :
+    decodeNodeInfo (encodeNodeInfo n) = some n := by
+  obtain ⟨name, host, os, arch, ver, start, ips, peers, pub, udp, fls, shells, ft, sh, icmp⟩ := n
+  simp only [nodeInfoWF, Bool.and_eq_true, decide_eq_true_eq] at h
+  obtain ⟨⟨⟨⟨⟨⟨⟨hhead, hpl⟩, hpw⟩, hkey⟩, hfl⟩, hfw⟩, hsl⟩, hsw⟩ := h
+  have hmp : maxPeers = 50 := rfl
+  have hmf : maxFls = 20 := rfl
+  have hms : maxShells = 10 := rfl
+  have tp : peers.take maxPeers = peers := List.take_of_length_le hpl
+  have tf : fls.take maxFls = fls := List.take_of_length_le hfl
+  have ts : shells.take maxShells = shells := List.take_of_length_le hsl
+  -- the encoding, right-nested
+  have henc : encodeNodeInfo (⟨name, host, os, arch, ver, start, ips, peers, pub, udp, fls, shells, ft, sh, icmp⟩ : NodeInfo) =
+      niHeadC.enc (name, host, os, arch, ver, start, ips) ++ (beN 1 peers.length ++ (encAll peerC peers ++
+        (key32.enc pub ++ (bool.enc udp ++ (beN 1 fls.length ++ (encAll flC fls ++
+          (beN 1 shells.length ++ (encAll str shells ++ (bool.enc ft ++ (bool.enc sh ++ (bool.enc icmp ++ []))))))))))) := by
+    simp only [encodeNodeInfo, tp, tf, ts, List.append_assoc, List.append_nil]
+  have hlen : ¬ (encodeNodeInfo (⟨name, host, os, arch, ver, start, ips, peers, pub, udp, fls, shells, ft, sh, icmp⟩ : NodeInfo)).length < 5 + 32 := by
+    have hk : pub.length = 32 := by simpa [bytesN] using hkey
+    rw [henc]
+    simp [niHeadC, seq, lp, be, listN, bytesN, bool, hk]
+    omega
+  have hpc := be_sound 1 peers.length (encAll peerC peers ++
+        (key32.enc pub ++ (bool.enc udp ++ (beN 1 fls.length ++ (encAll flC fls ++
+          (beN 1 shells.length ++ (encAll str shells ++ (bool.enc ft ++ (bool.enc sh ++ (bool.enc icmp ++ []))))))))))
+    (by simp [be]; omega)
+  have hmin : min peers.length maxPeers = peers.length := Nat.min_eq_left hpl
+  unfold decodeNodeInfo
+  rw [if_neg hlen, henc, niHead_sound _ _ hhead]
+  dsimp only
+  rw [show u8.dec = (be 1).dec from rfl, show (be 1).enc peers.length = beN 1 peers.length from rfl] at *
+  rw [hpc]
+  dsimp only
+  rw [hmin, repDec_sound peer_sound peers _ hpw]
+  dsimp only
+  rw [bytesN_sound 32 pub _ hkey]
+  dsimp only
+  rw [optBool_enc]
+  dsimp only
+  rw [beN1 fls.length]
+  simp only [List.cons_append, List.nil_append]
+  rw [u8_toNat fls.length (by omega), Nat.min_eq_left hfl,
+    flLoop_sound fls _ (by simp [beN1]) hfw]
+  dsimp only
+  simp only [Bool.false_eq_true, if_false]
+  rw [beN1 shells.length]
+  simp only [List.cons_append, List.nil_append]
+  rw [u8_toNat shells.length (by omega), Nat.min_eq_left hsl,
+    shLoop_sound shells _ (by cases ft <;> simp [bool]) hsw]
+  dsimp only
+  simp only [Bool.false_eq_true, if_false]
+  rw [optBool_enc, optBool_enc, optBool_enc]
+
+example : nodeInfoWF ⟨[97], [], [108], [], [49], 5, [[49, 46, 50]], [(List.replicate 16 3, [113], 12, true)],
+    List.replicate 32 9, true, [([107], [58, 56])], [[115, 104]], false, true, false⟩ = true := by
+  decide
+
+/-- Whatever `DecodeNodeInfo` accepts is within the wire limits (so it re-encodes and decodes to
+    the same NodeInfo, `NodeInfo_reencode`). -/
+theorem NodeInfo_decode_wf (bs : Bytes) (n : NodeInfo) (h : decodeNodeInfo bs = some n) :
+    nodeInfoWF n = true := by
+  unfold decodeNodeInfo at h
+  split at h
+  · cases h
+  · split at h
+    · cases h
+    · next name host os arch ver start ips r0 hh =>
+      have hhead : niHeadC.wf (name, host, os, arch, ver, start, ips) = true :=
+        (by unfold niHeadC; codec_decwf : niHeadC.DecWF) _ _ _ hh
+      split at h
+      · cases h
+      · next pc r1 hpc =>
+        split at h
+        · cases h
+        · next peers r2 hp =>
+          have hpw := repDec_decwf (by unfold peerC; codec_decwf : peerC.DecWF) _ _ _ _ hp
+          have hpl : peers.length ≤ maxPeers := by rw [hpw.2]; exact Nat.min_le_right _ _
+          split at h
+          · cases h
+          · next pub r3 hk =>
+            have hkw : key32.wf pub = true := bytesN_decwf 32 _ _ _ hk
+            have base : ∀ (udp : Bool) (fls : List (Bytes × Bytes)) (shells : List Bytes) (a b c : Bool),
+                fls.all flC.wf = true → fls.length ≤ maxFls → shells.all str.wf = true →
+                shells.length ≤ maxShells →
+                nodeInfoWF ⟨name, host, os, arch, ver, start, ips, peers, pub, udp, fls, shells, a, b, c⟩ = true := by
+              intro udp fls shells a b c h1 h2 h3 h4
+              simp [nodeInfoWF, hhead, hpl, hpw.1, hkw, h1, h2, h3, h4]
+            dsimp only at h
+            split at h
+            · injection h with h; subst h
+              exact base _ [] [] _ _ _ (by simp) (by simp) (by simp) (by simp)
+            · next lc r5 _ =>
+              have hfl := flLoop_wf (min lc.toNat maxFls) r5
+              have hfl2 : (flLoop (min lc.toNat maxFls) r5).1.length ≤ maxFls :=
+                Nat.le_trans hfl.2 (Nat.min_le_right _ _)
+              split at h
+              · injection h with h; subst h
+                exact base _ _ [] _ _ _ hfl.1 hfl2 (by simp) (by simp)
+              · split at h
+                · injection h with h; subst h
+                  exact base _ _ [] _ _ _ hfl.1 hfl2 (by simp) (by simp)
+                · next sc r7 _ =>
+                  have hsl := shLoop_wf (min sc.toNat maxShells) r7
+                  have hsl2 : (shLoop (min sc.toNat maxShells) r7).1.length ≤ maxShells :=
+                    Nat.le_trans hsl.2 (Nat.min_le_right _ _)
+                  split at h
+                  · injection h with h; subst h
+                    exact base _ _ _ _ _ _ hfl.1 hfl2 hsl.1 hsl2
+                  · injection h with h; subst h
+                    exact base _ _ _ _ _ _ hfl.1 hfl2 hsl.1 hsl2
+
+theorem NodeInfo_reencode (bs : Bytes) (n : NodeInfo) (h : decodeNodeInfo bs = some n) :
+    decodeNodeInfo (encodeNodeInfo n) = some n :=
+  NodeInfo_roundtrip n (NodeInfo_decode_wf bs n h)
+
+/-- Whatever `DecodeQueuedState` accepts from at most 65535 + … bytes is within the wire limits:
+    every kept item is well-formed and re-encodes into a blob that fits its 2-byte length. -/
+theorem QueuedState_decode_wf (bs : Bytes) (q : QueuedState) (h : decodeQueuedState bs = some q) :
+    queuedStateWF q = true := by
+  have hRA : ∀ blob a, blob.length < 65536 → decodeRouteAdvertise blob = some a →
+      (routeAdvertiseC.wf a && decide ((routeAdvertiseC.enc a).length < 65536)) = true := by
+    intro blob a hb hd
+    have := decodeTop_enc_le routeAdvertise_lenExact 28 blob a hd
+    simp [decodeTop_wf routeAdvertise_decwf 28 blob a hd]; omega
+  have hRW : ∀ blob a, blob.length < 65536 → decodeRouteWithdraw blob = some a →
+      (routeWithdrawC.wf a && decide ((routeWithdrawC.enc a).length < 65536)) = true := by
+    intro blob a hb hd
+    have := decodeTop_enc_le routeWithdraw_lenExact 26 blob a hd
+    simp [decodeTop_wf routeWithdraw_decwf 26 blob a hd]; omega
+  have hNA : ∀ blob a, blob.length < 65536 → decodeNodeInfoAdvertise blob = some a →
+      (nodeInfoAdvertiseC.wf a && decide ((nodeInfoAdvertiseC.enc a).length < 65536)) = true := by
+    intro blob a hb hd
+    have := decodeTop_enc_le nodeInfoAdvertise_lenExact 28 blob a hd
+    simp [decodeTop_wf nodeInfoAdvertise_decwf 28 blob a hd]; omega
+  have hcmd : ∀ (b : Bytes) (c : Cmd), decodeCmd b = some c → sleepC.wf c = true :=
+    fun b c hd => decodeTop_wf sleep_decwf cmdMinLen b c hd
+  have hu16 : ∀ (b : Bytes) (n : Nat) (r : Bytes), u16.dec b = some (n, r) → n < 65536 := by
+    intro b n r hd
+    have := be_decwf 2 _ _ _ hd
+    simpa [be] using this
+  unfold decodeQueuedState decodeQueuedStateWith at h
+  split at h
+  · cases h
+  · split at h
+    · cases h
+    · next rc r0 h0 =>
+      split at h
+      · cases h
+      · next routes r1 h1 =>
+        have a1 := blobList_all _ _ hRA _ _ _ _ h1
+        split at h
+        · cases h
+        · next wc r2 h2 =>
+          split at h
+          · cases h
+          · next withdraws r3 h3 =>
+            have a2 := blobList_all _ _ hRW _ _ _ _ h3
+            split at h
+            · cases h
+            · next nc r4 h4 =>
+              split at h
+              · cases h
+              · next nodeInfos r5 h5 =>
+                have a3 := blobList_all _ _ hNA _ _ _ _ h5
+                have l1 := hu16 _ _ _ h0
+                have l2 := hu16 _ _ _ h2
+                have l3 := hu16 _ _ _ h4
+                have hlists : ∀ (s w : Option Cmd),
+                    (match s with | some c => sleepC.wf c | none => true) = true →
+                    (match w with | some c => sleepC.wf c | none => true) = true →
+                    queuedStateWF ⟨routes, withdraws, nodeInfos, s, w⟩ = true := by
+                  intro s w hs hw
+                  simp only [queuedStateWF, Bool.and_eq_true, decide_eq_true_eq]
+                  refine ⟨⟨⟨⟨⟨⟨⟨by omega, ?_⟩, by omega⟩, ?_⟩, by omega⟩, ?_⟩, hs⟩, hw⟩
+                  · exact List.all_eq_true.mpr a1.1
+                  · exact List.all_eq_true.mpr a2.1
+                  · exact List.all_eq_true.mpr a3.1
+                split at h
+                · cases h
+                · next sf r6 =>
+                  dsimp only at h
+                  have hsl : ∀ (p : Option Cmd × Bytes),
+                      p = (if (sf != 0) = true then
+                            match decodeCmd r6 with
+                            | some c => (some c, List.drop (97 + 16 * c.2.2.2.2.length) r6)
+                            | none => (none, r6)
+                          else (none, r6)) →
+                      (match p.1 with | some c => sleepC.wf c | none => true) = true := by
+                    intro p hp
+                    subst hp
+                    by_cases hsf : (sf != 0) = true
+                    · rw [if_pos hsf]
+                      cases hd : decodeCmd r6 with
+                      | none => rfl
+                      | some c => exact hcmd _ _ hd
+                    · rw [if_neg hsf]
+                  split at h
+                  · cases h
+                  · next wf r8 _ =>
+                    injection h with h
+                    subst h
+                    refine hlists _ _ (hsl _ rfl) ?_
+                    by_cases hwf : (wf != 0) = true
+                    · rw [if_pos hwf]
+                      cases hd : decodeCmd r8 with
+                      | none => rfl
+                      | some c => exact hcmd _ _ hd
+                    · rw [if_neg hwf]
+
+theorem QueuedState_reencode (bs : Bytes) (q : QueuedState) (h : decodeQueuedState bs = some q) :
+    decodeQueuedState (encodeQueuedState q) = some q :=
+  QueuedState_roundtrip q (QueuedState_decode_wf bs q h)
+
 end MM.C05
